@@ -139,6 +139,10 @@ type Atom struct {
 	Cond func(rel *Term) (match bool, atomTrueWhenRel bool)
 	// Event: an instruction that sets the atom to val (T, F or U=reset).
 	Event func(in ssa.Instruction) (match bool, val int8)
+	// Stable: every condition this atom matches tests the same immutable SSA value (e.g. the error result
+	// of one call), so a path that already knows the atom cannot take the edge that contradicts it
+	// (prunes the infeasible paths of `if err != nil && ..` followed by `if err == nil && ..`).
+	Stable bool
 }
 
 type State string // one byte per atom
@@ -208,12 +212,19 @@ func AnalyzePaths(fn *ssa.Function, atoms []Atom) *PathStates {
 		for si, succ := range b.Succs {
 			for s := range outs {
 				ns := s
+				infeasible := false
 				for _, m := range branch[b] {
 					val := F
 					if (si == 0) == m.pol {
 						val = T
 					}
+					if atoms[m.atom].Stable && int8(s[m.atom]) != U && int8(s[m.atom]) != val {
+						infeasible = true
+					}
 					ns = ns.set(m.atom, val)
+				}
+				if infeasible {
+					continue
 				}
 				if ps.in[succ] == nil {
 					ps.in[succ] = map[State]bool{}
